@@ -376,7 +376,7 @@ def run_kani(prop, group_names, tier, timeout=1500, jobs=16, only=None, keep_scr
         return [], {"cmd": "", "wall": 0.0, "scratch": None}
     used_groups = [g for g in groups if g.helper or any(h.group is g for h in selected)]
     if harness_timeout is None:
-        harness_timeout = int(os.environ.get("VERIF_HARNESS_TIMEOUT", "150" if tier == "quick" else "600"))
+        harness_timeout = int(os.environ.get("VERIF_HARNESS_TIMEOUT", "300" if tier == "quick" else "900"))
     # groups marked `//@ separate` get their own scratch copy and cargo-kani invocation
     batches = [[g for g in used_groups if not g.separate]] + [[g] for g in used_groups if g.separate]
     batches = [b for b in batches if b]
